@@ -475,7 +475,7 @@ func c13(ctx *run.Ctx, raceOnly bool) {
 			pool = append(pool, c)
 		}
 	}
-	n := ctx.Pick(32, 300)
+	n := ctx.Pick(32, 600)
 	if raceOnly {
 		n = ctx.Pick(16, 100)
 	}
